@@ -552,99 +552,196 @@ func (a *vAtom) truth(v vVal) bool {
 
 // ---------------------------------------------------------------- reference semantics of expressions
 //
-// sem (the reference): success/failure continuation semantics. vPos(e,p,k): e succeeds from payload
-// position p and every continuation k holds at the position(s) reached; vNeg(e,p,k): e fails from p and
-// k holds at the position where the failure was established (a negated sequence `a then -b` continues
-// behind a). THEN = AND with sequential data matching; AND/OR evaluate both sides from the same position.
-func vPos(e *vExpr, v vVal, p int, k func(int) bool) bool {
+// sem (the reference, notes/C03.md). OR (and the two directions of `data:`) is a choice made for the whole
+// expression: e holds iff one of its OR-free readings (vExpand) holds. An OR-free expression is run from a
+// payload position p and yields the list of positions reached by its payload sequences (empty if it
+// involves no payload filter: filters on ports, tags, hosts ... have no position):
+//
+//	THEN = AND, but the payload filters of the right side start where the sequences of the left side ended
+//	       (at the same place as the left side if that has none);
+//	NOT  is a test at the current position: it holds iff its operand does not hold from there; it does
+//	       not move the position.
+func vExpand(e *vExpr) []*vExpr {
+	switch e.Op {
+	case "atom":
+		if e.Atom.Kind == "data" && len(e.Atom.Elems) > 1 {
+			res := []*vExpr{}
+			for _, el := range e.Atom.Elems {
+				a := *e.Atom
+				a.Elems = []int{el}
+				res = append(res, &vExpr{Op: "atom", Atom: &a})
+			}
+			return res
+		}
+		return []*vExpr{e}
+	case "not":
+		return []*vExpr{e}
+	case "or":
+		res := []*vExpr{}
+		for _, k := range e.Kids {
+			res = append(res, vExpand(k)...)
+		}
+		return res
+	}
+	alts := [][]*vExpr{{}}
+	for _, k := range e.Kids {
+		ks := vExpand(k)
+		n := [][]*vExpr{}
+		for _, A := range alts {
+			for _, x := range ks {
+				n = append(n, append(append([]*vExpr{}, A...), x))
+			}
+		}
+		alts = n
+		vGuard(len(alts))
+	}
+	res := []*vExpr{}
+	for _, A := range alts {
+		res = append(res, &vExpr{Op: e.Op, Kids: A})
+	}
+	return res
+}
+
+var vExpandCache = map[*vExpr][]*vExpr{}
+
+func vHolds(e *vExpr, v vVal, p int) bool {
+	ex, ok := vExpandCache[e]
+	if !ok {
+		ex = vExpand(e)
+		vExpandCache[e] = ex
+	}
+	for _, c := range ex {
+		if ok, _ := vRunC(c, v, p); ok {
+			return true
+		}
+	}
+	return false
+}
+
+// run of an OR-free expression: (holds, positions reached)
+func vRunC(e *vExpr, v vVal, p int) (bool, []int) {
 	switch e.Op {
 	case "atom":
 		a := e.Atom
 		if a.Kind != "data" {
-			return a.truth(v) && k(p)
+			return a.truth(v), nil
 		}
-		for _, el := range a.Elems {
-			if q, ok := v[a.Sub].nxt(el, p); ok && k(q) {
-				return true
-			}
+		q, ok := v[a.Sub].nxt(a.Elems[0], p)
+		if !ok {
+			return false, nil
 		}
-		return false
+		return true, []int{q}
 	case "not":
-		return vNeg(e.Kids[0], v, p, k)
+		return !vHolds(e.Kids[0], v, p), nil
 	case "and":
-		for _, c := range e.Kids {
-			if !vPos(c, v, p, k) {
-				return false
+		ends := []int(nil)
+		for _, k := range e.Kids {
+			ok, es := vRunC(k, v, p)
+			if !ok {
+				return false, nil
 			}
+			ends = append(ends, es...)
 		}
-		return true
-	case "or":
-		for _, c := range e.Kids {
-			if vPos(c, v, p, k) {
-				return true
-			}
-		}
-		return false
+		return true, ends
 	case "then":
-		return vPosThen(e.Kids, v, p, k)
+		ok, cur := vRunC(e.Kids[0], v, p)
+		if !ok {
+			return false, nil
+		}
+		for _, b := range e.Kids[1:] {
+			if len(cur) == 0 {
+				ok, cur = vRunC(b, v, p)
+				if !ok {
+					return false, nil
+				}
+				continue
+			}
+			n := []int(nil)
+			for _, q := range cur {
+				ok, es := vRunC(b, v, q)
+				if !ok {
+					return false, nil
+				}
+				if len(es) == 0 {
+					es = []int{q}
+				}
+				n = append(n, es...)
+			}
+			cur = n
+		}
+		return true, cur
 	}
 	panic("op " + e.Op)
 }
 
-func vPosThen(ks []*vExpr, v vVal, p int, k func(int) bool) bool {
-	if len(ks) == 1 {
-		return vPos(ks[0], v, p, k)
+func vGuard(n int) {
+	if n > 200000 {
+		panic("reference semantics: too many alternatives")
 	}
-	return vPos(ks[0], v, p, func(q int) bool { return vPosThen(ks[1:], v, q, k) })
-}
-
-func vNegThen(ks []*vExpr, v vVal, p int, k func(int) bool) bool {
-	if len(ks) == 1 {
-		return vNeg(ks[0], v, p, k)
-	}
-	return vNeg(ks[0], v, p, k) || vPos(ks[0], v, p, func(q int) bool { return vNegThen(ks[1:], v, q, k) })
-}
-
-func vNeg(e *vExpr, v vVal, p int, k func(int) bool) bool {
-	switch e.Op {
-	case "atom":
-		a := e.Atom
-		if a.Kind != "data" {
-			return !a.truth(v) && k(p)
-		}
-		for _, el := range a.Elems {
-			if _, ok := v[a.Sub].nxt(el, p); ok {
-				return false
-			}
-		}
-		return k(p)
-	case "not":
-		return vPos(e.Kids[0], v, p, k)
-	case "and":
-		for _, c := range e.Kids {
-			if vNeg(c, v, p, k) {
-				return true
-			}
-		}
-		return false
-	case "or":
-		for _, c := range e.Kids {
-			if !vNeg(c, v, p, k) {
-				return false
-			}
-		}
-		return true
-	case "then":
-		return vNegThen(e.Kids, v, p, k)
-	}
-	panic("op " + e.Op)
 }
 
 func vSem(e *vExpr, v vVal) bool {
 	if e == nil {
 		return true
 	}
-	return vPos(e, v, 0, func(int) bool { return true })
+	return vHolds(e, v, 0)
+}
+
+// The fragment on which the meaning of NOT inside a sequence is unambiguous (notes/C03.md): where something
+// follows in a sequence (non-last operand of THEN, at any depth), (1) a NOT is applied only to operands
+// without NOT and THEN, (2) an AND is applied only to operands without THEN.
+func vNoThen(e *vExpr) bool {
+	if e.Op == "then" {
+		return false
+	}
+	for _, k := range e.Kids {
+		if !vNoThen(k) {
+			return false
+		}
+	}
+	return true
+}
+
+func vSimple(e *vExpr) bool {
+	if e.Op == "not" || e.Op == "then" {
+		return false
+	}
+	for _, k := range e.Kids {
+		if !vSimple(k) {
+			return false
+		}
+	}
+	return true
+}
+
+func vWf(e *vExpr, tail bool) bool {
+	switch e.Op {
+	case "atom":
+		return true
+	case "not":
+		return vWf(e.Kids[0], true) && (tail || vSimple(e.Kids[0]))
+	case "then":
+		for i, k := range e.Kids {
+			if !vWf(k, tail && i == len(e.Kids)-1) {
+				return false
+			}
+		}
+		return true
+	case "and":
+		if !tail {
+			for _, k := range e.Kids {
+				if !vNoThen(k) {
+					return false
+				}
+			}
+		}
+	}
+	for _, k := range e.Kids {
+		if !vWf(k, tail) {
+			return false
+		}
+	}
+	return true
 }
 
 // semL: the reading of DESIGN.md section C03: NOT is a pure look-ahead, the continuation restarts at the
@@ -1123,9 +1220,10 @@ func (n *vNames) val(v vVal, w *strings.Builder) {
 type vResult struct {
 	I      int      `json:"i"`
 	Q      string   `json:"q"`
-	Err    string   `json:"err,omitempty"`     // Parse returned an error
-	DErr   string   `json:"derr,omitempty"`    // the dumper found the text ill-formed
-	Unsup  string   `json:"unsup,omitempty"`   // outside the evaluated fragment (reason)
+	Err    string   `json:"err,omitempty"`   // Parse returned an error
+	DErr   string   `json:"derr,omitempty"`  // the dumper found the text ill-formed
+	Unsup  string   `json:"unsup,omitempty"` // outside the evaluated fragment (reason)
+	Wf     bool     `json:"wf"`              // NOT-inside-sequence fragment with unambiguous meaning
 	Panic  string   `json:"panic,omitempty"`
 	Hang   bool     `json:"hang,omitempty"`
 	Tree   *vExpr   `json:"tree,omitempty"`
@@ -1135,7 +1233,8 @@ type vResult struct {
 	ParseS float64  `json:"parse_s"`
 	Vals   []vVal   `json:"vals,omitempty"`
 	Impl   string   `json:"impl,omitempty"`
-	Impl2  string   `json:"impl2,omitempty"` // second Parse of the same text
+	Impl1c string   `json:"impl1c,omitempty"` // first parse on the coarse-time copy of the valuations
+	Impl2  string   `json:"impl2,omitempty"`  // second Parse of the same text on the coarse-time copy
 	Sem    string   `json:"sem,omitempty"`
 	SemL   string   `json:"seml,omitempty"`
 	Elems  []string `json:"elems,omitempty"`
@@ -1248,6 +1347,8 @@ func vRunCase(i int, text string, nvals int, seed int64, hang time.Duration, mw 
 		panic("normal form contains a data element that is not in the query: " + e.Regex)
 	}
 	stripped := vStrip(tree)
+	vExpandCache = map[*vExpr][]*vExpr{}
+	res.Wf = stripped == nil || vWf(stripped, true)
 	crit := &vCrit{subs: []string{""}}
 	crit.collect(stripped)
 	rng := rand.New(rand.NewSource(seed*1000003 + int64(i)))
@@ -1257,8 +1358,16 @@ func vRunCase(i int, text string, nvals int, seed int64, hang time.Duration, mw 
 		n = len(seqs)
 	}
 	// second parse: same text, must mean the same
-	pr2, ok2 := vParseGuard(text, hang)
-	impl, impl2, sem, semL := []bool{}, []bool{}, []bool{}, []bool{}
+	var pr2 *vParsed
+	ok2 := false
+	twiceMax := 0.15
+	if s := os.Getenv("VERIF_TWICE_MAX_S"); s != "" {
+		twiceMax, _ = strconv.ParseFloat(s, 64)
+	}
+	if res.ParseS < twiceMax {
+		pr2, ok2 = vParseGuard(text, hang)
+	}
+	impl, impl1c, impl2, sem, semL := []bool{}, []bool{}, []bool{}, []bool{}, []bool{}
 	names := &vNames{subs: vRankNames(crit.subs), tags: vRankNames(crit.tags)}
 	var mb strings.Builder
 	fmt.Fprintf(&mb, "C %d ", i)
@@ -1272,7 +1381,22 @@ func vRunCase(i int, text string, nvals int, seed int64, hang time.Duration, mw 
 		res.Vals = append(res.Vals, v)
 		impl = append(impl, vEvalSet(q.Conditions, v, elemID))
 		if ok2 && pr2.q != nil {
-			impl2 = append(impl2, vEvalSet(pr2.q.Conditions, v, elemID))
+			// Parsing twice: the two parses have different reference times (time.Now()), so absolute and
+			// relative time filters move against each other by the time between the parses. Compared on a
+			// coarse copy of the valuation: stream times half a second away from every critical value.
+			vc := vVal{}
+			for sq, st := range v {
+				c := *st
+				d := int64(500 * time.Millisecond)
+				if j%2 == 1 {
+					d = -d
+				}
+				c.FTime += d
+				c.LTime += d
+				vc[sq] = &c
+			}
+			impl1c = append(impl1c, vEvalSet(q.Conditions, vc, elemID))
+			impl2 = append(impl2, vEvalSet(pr2.q.Conditions, vc, elemID))
 		}
 		sem = append(sem, vSem(stripped, v))
 		semL = append(semL, vSemL(stripped, v))
@@ -1280,7 +1404,7 @@ func vRunCase(i int, text string, nvals int, seed int64, hang time.Duration, mw 
 		mb.WriteString("\n")
 	}
 	mb.WriteString("E\n")
-	res.Impl, res.Impl2, res.Sem, res.SemL = vBits(impl), vBits(impl2), vBits(sem), vBits(semL)
+	res.Impl, res.Impl1c, res.Impl2, res.Sem, res.SemL = vBits(impl), vBits(impl1c), vBits(impl2), vBits(sem), vBits(semL)
 	if mw != nil {
 		mw.WriteString(mb.String())
 		mw.Flush()
